@@ -33,6 +33,9 @@ CONSTANTS Lens,        \* source lengths (set of naturals)
                        \* TRUE: Transport::seek_to sets `playing = position < num_frames` (proposed fix)
           SeekByHeard, \* FALSE: the code as it is (seek_by measures from the transport = prefetch position);
                        \* TRUE: seek_by measures from the frame heard, resampler.current_frame_index() (proposed fix)
+          SafeTransport, \* TRUE: the code as it is (a loop region with end <= start is dropped by Transport::new /
+                       \* set_loop_region; `reverse` start positions saturate at frame 0);  FALSE: the code before
+                       \* those fixes (such a loop region hangs or overflows, reverse beyond the audio overflows)
           Wide         \* TRUE: also the input combinations the documentation leaves open
                        \* (loop end <= loop start, start beyond the slice / after the loop end, ...)
 
@@ -61,7 +64,9 @@ NF  == IF c.sl THEN c.se - c.ss ELSE c.len               \* data.rs num_frames
 Off == IF c.sl THEN c.ss ELSE 0
 FrameAt(i) == IF i >= NF THEN 0 ELSE Off + i + 1         \* frame_at_index(..).unwrap_or_default()
 Backwards == (rate < 0) # c.rev                          \* is_playing_backwards
-LoopOf(r) == IF r.lp THEN <<r.ls, IF r.le < 0 THEN NF ELSE r.le>> ELSE NoLoop
+LoopOf(r) == IF ~r.lp THEN NoLoop
+             ELSE LET l == <<r.ls, IF r.le < 0 THEN NF ELSE r.le>>
+                  IN IF SafeTransport /\ l[2] <= l[1] THEN NoLoop ELSE l
 Max(a, b) == IF a > b THEN a ELSE b
 
 \* ---------------------------------------------------------------- settings
@@ -118,9 +123,9 @@ Pick == Pick1 \/ Pick2 \/ Pick3 \/ Pick4
 \* Transport::new, Resampler::new; then three update_position calls
 Ctor ==
   /\ pc = "new" /\ act' = <<"Ctor">>
-  /\ IF c.rev /\ NF - 1 - c.start < 0
+  /\ IF ~SafeTransport /\ c.rev /\ NF - 1 - c.start < 0
      THEN Panic("new")                                   \* usize underflow in `num_frames - 1 - start_position`
-     ELSE LET p == IF c.rev THEN NF - 1 - c.start ELSE c.start IN
+     ELSE LET p == IF c.rev THEN Max(Max(NF - 1, 0) - c.start, 0) ELSE c.start IN   \* saturating_sub twice
           /\ pos' = p /\ loop' = LoopOf(c) /\ playing' = TRUE
           /\ win' = [j \in 1..4 |-> [v |-> 0, i |-> p]]
           /\ k' = 3 /\ pc' = "upd" /\ ret' = "prime" /\ ev' = Tau
